@@ -143,14 +143,16 @@ CHECKS = {
         'text': 'Tls.tla models the interception protocol over facts (origin certificate situation x insecure switch x per-request opt-out '
                 'x certificate cache x host kind); TLC checks NeverTrustBad, LeafNamesHost and the liveness property EndsRight over the '
                 'whole case table. RealNet: a REAL proxy process with the interception flags and a test CA, real TLS origins presenting '
-                'a trusted / self-signed / wrong-name / expired certificate, a client that CONNECTs to a host name and to an IPv4 '
-                'literal, completes TLS, has the presented certificate judged by the openssl CLI (chains to the interception CA, names '
-                'the CONNECT host, is the origin own certificate), then sends a request inside TLS; every case cold and warm. TLC (TraceTls) '
+                'a trusted / self-signed / wrong-name / expired certificate, a client that CONNECTs to a host name, an IPv4 literal '
+                'and a bracketed IPv6 literal, completes TLS, has the presented certificate judged by the openssl CLI (chains to the interception CA, names '
+                'the CONNECT host, is the origin own certificate), then sends a request inside TLS (GET, POST with Content-Length, chunked and empty chunked bodies, in one or several '
+                'TLS records; small, chunked and multi-record responses); the first intercepted conversation per host meets a cold '
+                'certificate cache, the others run concurrently against a warm one. TLC (TraceTls) '
                 'decides per case: refused => no application data in either direction; intercepted => valid per-host leaf, request '
                 'semantically intact at the origin, response intact; opted-out => opaque tunnel byte for byte.',
         'design_ref': 'DESIGN.md section 6, C11',
         'note': 'Trusted: TLC, OpenSSL (X.509 verification, name matching, expiry) through CPython ssl and the openssl CLI, the kernel. '
-                'IPv6 literals, cipher / protocol-version policy and segmentation inside the TLS session are not exercised.',
+                'Cipher / protocol-version policy is not exercised.',
         'technique': 'TLA+ protocol model over certificate facts (Tls) + TLC validation (TraceTls) of facts recorded from real TLS '
                      'conversations through a real intercepting proxy process',
     },
